@@ -44,10 +44,14 @@ def build(flavour="plain"):
     with open(csrc, "rb") as f:
         data = f.read()
     flags = FLAGS[flavour]
-    h = hashlib.sha256(data + repr(flags).encode() + repo.encode()).hexdigest()[:16]
+    h = hashlib.sha256(data + repr(flags).encode()).hexdigest()[:16]
+    rh = hashlib.sha256(os.path.realpath(repo).encode()).hexdigest()[:8]
     os.makedirs(BUILD, exist_ok=True)
-    ov = os.path.join(BUILD, "%s-%s" % (flavour, h))
-    lock = open(os.path.join(BUILD, ".lock-" + flavour), "w")
+    # one overlay per (flavour, repository root, content of ctraits.c): concurrent checks against different trees
+    # (sensitivity trials) must not remove each other's builds
+    prefix = "%s-%s-" % (flavour, rh)
+    ov = os.path.join(BUILD, prefix + h)
+    lock = open(os.path.join(BUILD, ".lock-" + prefix.rstrip("-")), "w")
     fcntl.flock(lock, fcntl.LOCK_EX)
     try:
         pkg = os.path.join(ov, "traits")
@@ -64,19 +68,30 @@ def build(flavour="plain"):
             os.replace(tmp, so)
             # drop older builds of the same flavour
             for d in os.listdir(BUILD):
-                if d.startswith(flavour + "-") and d != os.path.basename(ov):
+                if d.startswith(prefix) and d != os.path.basename(ov):
                     shutil.rmtree(os.path.join(BUILD, d), ignore_errors=True)
-        # (re)create the symlink farm every time: cheap, and sees new files
-        if os.path.isdir(pkg):
-            shutil.rmtree(pkg)
-        os.makedirs(pkg)
+        # bring the symlink farm up to date every time (cheap, sees new files) WITHOUT ever removing a valid
+        # link: other checks against the same tree may be importing from it right now
+        os.makedirs(pkg, exist_ok=True)
+        want = {}
         for name in os.listdir(src_dir):
             if name == "__pycache__":
                 continue
             if name.startswith("ctraits.") and name.endswith(".so"):
                 continue
-            os.symlink(os.path.join(src_dir, name), os.path.join(pkg, name))
-        os.symlink(so, os.path.join(pkg, "ctraits" + ext_suffix()))
+            want[name] = os.path.join(src_dir, name)
+        want["ctraits" + ext_suffix()] = so
+        for name in os.listdir(pkg):
+            path = os.path.join(pkg, name)
+            if name not in want or not os.path.islink(path) or os.readlink(path) != want[name]:
+                if os.path.isdir(path) and not os.path.islink(path):
+                    shutil.rmtree(path)
+                else:
+                    os.unlink(path)
+        for name, target in want.items():
+            path = os.path.join(pkg, name)
+            if not os.path.lexists(path):
+                os.symlink(target, path)
     finally:
         fcntl.flock(lock, fcntl.LOCK_UN)
         lock.close()
